@@ -10,6 +10,7 @@ import (
 	"reflect"
 	"sort"
 	"sync"
+	"time"
 )
 
 // Sim is what a running simulation installs.
@@ -57,7 +58,17 @@ func SetNumSites(n int) {
 	Hits = make([]uint64, n+1)
 }
 
+// Concurrent is set by the generated init when package jen starts goroutines of its
+// own. They run outside any baton, so every entry into the simulator is serialised by
+// one lock and the simulation only claims what does not depend on their interleaving.
+var Concurrent bool
+var big sync.Mutex
+
 func Yield(site int) {
+	if Concurrent {
+		big.Lock()
+		defer big.Unlock()
+	}
 	Steps++
 	if site < len(Hits) {
 		Hits[site]++
@@ -104,6 +115,10 @@ func ResetKeys() {
 // MapKeys snapshots the keys of m in a canonical order and applies the
 // permutation chosen by the simulation.
 func MapKeys[K comparable, V any](m map[K]V, site int) []K {
+	if Concurrent {
+		big.Lock()
+		defer big.Unlock()
+	}
 	keys := make([]K, 0, len(m))
 	for k := range m {
 		keys = append(keys, k)
@@ -212,6 +227,10 @@ var FSLog []FSCall
 
 // Unintercepted counts os entry points the rewriter saw but has no wrapper for.
 func logFS(op, name string, size, partial int, injected, err error) {
+	if Concurrent {
+		big.Lock()
+		defer big.Unlock()
+	}
 	c := FSCall{Op: op, Name: name, Size: size, Partial: partial}
 	if injected != nil {
 		c.Injected = injected.Error()
@@ -226,6 +245,10 @@ func logFS(op, name string, size, partial int, injected, err error) {
 func consult(op, name string, size int) (int, error) {
 	if Cur == nil {
 		return -1, nil
+	}
+	if Concurrent {
+		big.Lock()
+		defer big.Unlock()
 	}
 	return Cur.FS(op, name, size)
 }
@@ -409,6 +432,7 @@ func ResetRun() {
 // states): together with the restored package variables this is the state of a fresh process.
 func ResetProcessState() {
 	resetSync()
+	resetClock()
 	Hot = 0
 }
 
@@ -512,3 +536,48 @@ func resetSync() {
 	onceState = map[*sync.Once]int{}
 	poolItems = map[*sync.Pool][]interface{}{}
 }
+
+// ---- time (seam S7) -------------------------------------------------------------
+// package jen's reads of the clock go to a simulated clock: one microsecond per
+// statement executed, plus jumps the simulator injects (a cooperative fault point: with
+// a coin a read finds the clock a minute later, which expires anything time-based).
+
+var simEpoch = time.Date(2020, 1, 2, 3, 4, 5, 0, time.UTC)
+var clockSkew time.Duration
+var ClockReads, ClockJumps int
+
+func Now() time.Time {
+	if Cur == nil {
+		return time.Now()
+	}
+	if Concurrent {
+		big.Lock()
+		defer big.Unlock()
+	}
+	ClockReads++
+	if Cur.Coin("clock-jump") {
+		clockSkew += time.Minute
+		ClockJumps++
+	}
+	return simEpoch.Add(time.Duration(Steps)*time.Microsecond + clockSkew)
+}
+
+func Since(t time.Time) time.Duration { return Now().Sub(t) }
+func Until(t time.Time) time.Duration { return t.Sub(Now()) }
+
+// Sleep advances the simulated clock; nothing really sleeps.
+func Sleep(d time.Duration) {
+	if Cur == nil {
+		time.Sleep(d)
+		return
+	}
+	if Concurrent {
+		big.Lock()
+		defer big.Unlock()
+	}
+	if d > 0 {
+		clockSkew += d
+	}
+}
+
+func resetClock() { clockSkew = 0 }
